@@ -282,6 +282,11 @@ func (g *Gen) genC14(n int) error {
 			g.st("case")
 			continue
 		}
+		if i%40 == 11 {
+			g.emptiedVectorFieldCase()
+			g.st("case")
+			continue
+		}
 		cfg := g.vecCfg()
 		if g.tier == "thorough" && i%100 == 99 || g.tier == "quick" && i%40 == 39 {
 			// clustered index class: at least 1000 vectors
@@ -596,6 +601,70 @@ func (g *Gen) genC15(n int) error {
 }
 
 // genC16: event histories open / search / close-handle / tick / segment-close.
+// clusteredHistoryCase: a clustered index (>= 1000 vectors), whose answers the model leaves partly
+// open, must still answer one question one way: the same search before and after filtered searches
+// of other selectivity on the same cached index, after an eviction and reload, and on a second,
+// fresh open of the same file (`same=` tags).
+func (g *Gen) clusteredHistoryCase() {
+	g.setMode()
+	cfg := g.vecCfg()
+	cfg.minDocs, cfg.maxDocs = 520, 600
+	cfg.maxFields = 0
+	cfg.vecOne, cfg.vecAll = true, true
+	cfg.vecOptOverride = []string{"recall", "latency", "memory-efficient"}[g.stats["c16.clusteredhistory"]%3]
+	b := g.randBatch(g.fresh("b"), cfg)
+	g.emitBatch(b)
+	s := g.fresh("s")
+	g.emit("build %s %s", s, b.Name)
+	g.newBuilt(s, b)
+	f := g.fresh("f")
+	g.emit("persist %s %s", s, f)
+	o1, o2 := g.fresh("o"), g.fresh("o")
+	g.emit("open %s %s", o1, f)
+	g.alias(o1, s)
+	nd := len(b.Docs)
+	tag := g.fresh("t")
+	qs := []string{g.randQuery(2), intList(vecOfDoc(b, nd/2, "vecA")), g.randQuery(2)}
+	h := g.fresh("h")
+	g.emit("vopen %s %s vecA filt=1 ex=nil", h, o1)
+	ask := func(hh string) {
+		for qi, q := range qs {
+			g.emit("vsearch %s q=%s k=400 same=%s.%d.400", hh, q, tag, qi)
+			g.emit("vsearch %s q=%s k=7 same=%s.%d.7", hh, q, tag, qi)
+		}
+	}
+	ask(h)
+	// filtered searches that need fewer / more clusters than the index was built to probe
+	g.emit("vsearch %s q=%s k=5 elig=%d", h, qs[0], nd/3)
+	ask(h)
+	var half []int
+	for d := 0; d < nd; d += 2 {
+		half = append(half, d)
+	}
+	g.emit("vsearch %s q=%s k=50 elig=%s", h, qs[1], intList(half))
+	g.emit("vsearch %s q=%s k=3 elig=%d,%d", h, qs[2], 1, nd-1)
+	ask(h)
+	g.emit("vclose %s", h)
+	for t := 0; t < 6; t++ {
+		g.emit("vtick %s", o1)
+	}
+	h2 := g.fresh("h")
+	g.emit("vopen %s %s vecA filt=0 ex=nil", h2, o1)
+	ask(h2)
+	g.emit("vclose %s", h2)
+	g.emit("open %s %s", o2, f)
+	g.alias(o2, s)
+	h3 := g.fresh("h")
+	g.emit("vopen %s %s vecA filt=0 ex=nil", h3, o2)
+	ask(h3)
+	g.emit("vclose %s", h3)
+	g.emit("close %s", o2)
+	g.emit("close %s", o1)
+	g.emit("close %s", s)
+	g.emit("vcounters")
+	g.st("c16.clusteredhistory")
+}
+
 func (g *Gen) genC16(n int) error {
 	if n == 0 {
 		n = g.tierN(60, 1500)
@@ -604,6 +673,11 @@ func (g *Gen) genC16(n int) error {
 	for i := 0; i < n; i++ {
 		g.emit("note case %d", i)
 		g.emit("vreset")
+		if i%30 == 6 {
+			g.clusteredHistoryCase()
+			g.st("case")
+			continue
+		}
 		g.setMode()
 		cfg := g.vecCfg()
 		cfg.minDocs, cfg.maxDocs = 3, 4
@@ -643,6 +717,32 @@ func (g *Gen) genC16(n int) error {
 			g.emit("vclose %s", h1)
 			g.emit("vclose %s", h2)
 			g.emit("vrefs %s", seg)
+		}
+		if i%8 == 4 {
+			// the engine fails inside a search of one caller: that caller gets the error and closes its
+			// handle as usual; the other caller's handle on the same field stays valid through any
+			// number of expiry passes, and nothing is released twice
+			for _, fn := range []string{"vecA", "vecB"} {
+				for _, op := range []string{"SearchWithoutIDs", "SearchWithIDs"} {
+					ha, hb := g.fresh("h"), g.fresh("h")
+					g.emit("vopen %s %s %s filt=1 ex=nil", ha, seg, fn)
+					g.emit("vopen %s %s %s filt=1 ex=%s", hb, seg, fn, g.randDrops(nd))
+					if op == "SearchWithoutIDs" {
+						g.emit("vsearch %s q=%s k=%d engfail=%s:1", hb, g.randQuery(2), nd*3, op)
+					} else {
+						g.emit("vsearch %s q=%s k=%d elig=%s engfail=%s:1", hb, g.randQuery(2), nd*3, intList([]int{0, 1}), op)
+					}
+					g.emit("vclose %s", hb)
+					for t := 0; t < 6; t++ {
+						g.emit("vtick %s", seg)
+					}
+					g.emit("vrefs %s", seg)
+					g.emit("vsearch %s q=%s k=%d", ha, g.randQuery(2), nd*3)
+					g.emit("vclose %s", ha)
+					g.emit("vcounters")
+				}
+			}
+			g.st("c16.failedsearch")
 		}
 		if i%4 == 3 {
 			// the engine fails while the first caller's index is loaded (a cache miss), also after an
@@ -1186,6 +1286,48 @@ func (g *Gen) emptiedVectorFieldCase() {
 	g.emit("open %s %s", m1, f1)
 	g.ndocs[m1] = 2
 	g.emit("vstats %s", m1)
+	// the field lost every vector: searches on it - plain and filtered - find nothing and do not fail
+	for _, filt := range []string{"0", "1"} {
+		he := g.fresh("h")
+		g.emit("vopen %s %s vecA filt=%s ex=nil", he, m1, filt)
+		g.emit("vsearch %s q=%s k=3", he, g.randQuery(2))
+		if filt == "1" {
+			g.emit("vsearch %s q=%s k=3 elig=0", he, g.randQuery(2))
+		}
+		g.emit("vclose %s", he)
+	}
+	// the same with a second vector field that keeps its vectors (and sorts after the emptied one)
+	{
+		b := &BatchSpec{Name: g.fresh("b")}
+		for d := 0; d < 4; d++ {
+			id := []byte(fmt.Sprintf("%s-%d", b.Name, d))
+			doc := DocSpec{ID: id, Plain: true}
+			doc.Fields = append(doc.Fields, FieldSpec{Kind: "fld", Name: "_id", Typ: 't', Stored: true, Len: 1, Val: id, Toks: []TokSpec{{Term: id, Freq: 1}}})
+			if d < 2 {
+				doc.Fields = append(doc.Fields, FieldSpec{Kind: "vec", Name: "vecA", Dim: 2, Metric: "l2_norm", Opt: g.vecOpt["vecA"], Vec: []int{d, 1}})
+			}
+			doc.Fields = append(doc.Fields, FieldSpec{Kind: "vec", Name: "vecB", Dim: 2, Metric: g.vecBMetric, Opt: g.vecOpt["vecB"], Vec: []int{1, d}})
+			b.Docs = append(b.Docs, doc)
+		}
+		g.emitBatch(b)
+		s := g.fresh("s")
+		g.emit("build %s %s", s, b.Name)
+		g.newBuilt(s, b)
+		fz := g.fresh("f")
+		g.emit("merge %s segs=%s drops=0,1", fz, s)
+		mz := g.fresh("m")
+		g.emit("open %s %s", mz, fz)
+		g.emit("vstats %s", mz)
+		for _, fn := range []string{"vecA", "vecB"} {
+			he := g.fresh("h")
+			g.emit("vopen %s %s %s filt=1 ex=nil", he, mz, fn)
+			g.emit("vsearch %s q=1,1 k=5", he)
+			g.emit("vsearch %s q=1,1 k=5 elig=1", he)
+			g.emit("vclose %s", he)
+		}
+		g.emit("close %s", mz)
+		g.emit("close %s", s)
+	}
 	for _, order := range [][]string{{m1, bseg}, {bseg, m1}} {
 		f2 := g.fresh("f")
 		g.emit("merge %s segs=%s drops=nil|nil", f2, strList(order))
